@@ -112,7 +112,12 @@ pub fn gen_case(seed: u64, run: u64, faults: bool, real_every: u64) -> Case {
                 } else {
                     gen::base_sentence(&mut r, &opts, false)
                 };
-                let style = *r.pick(&["bash", "zsh", "fish", "elvish"][..]);
+                let style = *r.pick(
+                    &[
+                        "bash", "zsh", "fish", "elvish", "bash", "zsh", "fish", "elvish", "powershell",
+                        "tcsh", "", "zsh5", "Bash",
+                    ][..],
+                );
                 let at = if r.chance(3, 4) { 0 } else { r.below(argv.len() + 1) };
                 argv.insert(at, format!("--bpaf-complete-style-{}", style).into_bytes());
             }
